@@ -17,6 +17,16 @@ import ffcx.codegeneration.lnodes as L
 KERNEL_ARGS = ("A", "w", "c", "coordinate_dofs", "entity_local_index", "quadrature_permutation")
 
 
+import re
+
+_RULE = re.compile(r"(?:_Q|^weights_)([0-9a-f]{3,})(?:_|$)")
+
+
+def rule_id_of(name):
+    m = _RULE.search(name)
+    return m.group(1) if m else None
+
+
 class Extents:
     """Independent (UFL / ufcx.h derived) extents of the kernel arguments."""
 
@@ -58,6 +68,7 @@ class KernelChecker:
         self.reads = {k: [] for k in KERNEL_ARGS}  # name -> list of (z3 index, hyps snapshot)
         self.w_reads_static = []
         self._wdeps_seen = set()
+        self.all_decl_names = set()
         self.defs = {}  # temp name -> set of w-index terms it depends on (for def-use)
         self.stats = dict(accesses=0, decls=0, loops=0, assigns=0)
 
@@ -203,6 +214,9 @@ class KernelChecker:
                 d = scope.lookup(e.array.name)
                 if d is not None:
                     deps.extend(d.get("deps", ()))
+                    rid = rule_id_of(e.array.name)
+                    if rid is not None and d.get("kind") == "array" and d.get("const"):
+                        deps.append(("rule", rid, e.array.name))
             for i in e.indices:
                 self.expr_index(i, scope)
             return
@@ -257,7 +271,11 @@ class KernelChecker:
                 self.expr_index(i, scope)
 
     # ------------------------------------------------------------------ statements
+    def declared_anywhere(self, name):
+        return name in self.all_decl_names
+
     def declare(self, scope, name, info):
+        self.all_decl_names.add(name)
         if name in KERNEL_ARGS:
             self.ob(f"declared-once: {name} shadows a kernel argument", False, {})
         if name in scope.decls:
@@ -343,6 +361,20 @@ class KernelChecker:
                 for kind, t, txt in deps:
                     if kind == "w":
                         self.w_dep(t, txt)
+                rules = sorted({(t, txt) for kind, t, txt in deps if kind == "rule"})
+                wids = sorted({t for t, n in rules if n.startswith("weights_")})
+                bad = []
+                if len(wids) == 1:
+                    R = wids[0]
+                    for t, n in rules:
+                        if t != R and not n.startswith("weights_"):
+                            twin = n.replace(f"_Q{t}", f"_Q{R}")
+                            if twin != n and self.declared_anywhere(twin):
+                                bad.append((n, twin))
+                self.results.append((
+                    "rule-consistency: a contribution to A under rule R reads no table of another rule for which an R-table exists",
+                    "proved" if (len(wids) <= 1 and not bad) else "refuted", "eval", 0.0,
+                    dict(access=f"A update under weights {wids} reads {bad}", tables=[n for _, n in rules][:8])))
                 return
             d = scope.lookup(name)
             if d is not None:
